@@ -41,3 +41,134 @@ Proof. intros defs w. split; [apply match_instr_at_indexed | apply match_instr_a
 Theorem C08_index_loses_nothing : forall t defs w, parse_defs t = Some defs ->
   incl (working_brute (Nat.pred (match_fuel defs (tail w))) defs w) (working_indexed (match_fuel defs (tail w)) defs w).
 Proof. intros t defs w H. apply MatcherPermP.C08_index_loses_nothing. eapply parse_defs_keys_ok; eauto. Qed.
+
+(* ===== static-value half: --debug-no-optimize-static (Model/StaticKnown.v = the analysis is_value_statically_known /
+   get_match_statically_known and the per-item flags; Model/ResolverS.v = the resolver with the switch `opt` and the
+   `resolved` flags; assembleS argcheck pccheck opt: argcheck = pccheck = true is the analysis of the code as it is) ===== *)
+From Coq Require Import NArith ZArith List Bool.
+From CA Require Import Model.Lexer Model.Parser Model.BigIntOps Model.Evaluator Model.Matcher Model.Resolver
+  Model.StaticKnown Model.ResolverS Spec.StaticSpec
+  Proofs.StaticKnownP Proofs.ResolverSSimP Proofs.ResolverSTopP Proofs.ResolverSRefuteP.
+Import ListNotations.
+Open Scope Z_scope.
+
+(* static_known_sound, expressions: what is_value_statically_known accepts evaluates to the same result (value or
+   error, and resulting locals) under any two variable providers -- resolver state, current address, guessing or last
+   pass, pre-pass or main pass -- that agree on the variables the analysis calls known, from any locals that bind the
+   parameters it calls known.  It may depend on: literals, built-in functions, the known parameters, the known globals. *)
+Theorem static_known_sound : forall L G pv pv' e ctx,
+  pv_agree G pv pv' -> asm_agree pv pv' -> covers L ctx -> expr_known L G e = true ->
+  eval code_ops pv e ctx = eval code_ops pv' e ctx.
+Proof. intros L G pv pv' e ctx Hg Ha Hc Hk. exact (expr_known_indep L G pv pv' Hg false (fun _ => Ha) e ctx Hk eq_refl Hc). Qed.
+
+(* ... constants and data elements (value_statically_known / encoding_statically_known: no variable is known): the
+   result does not depend on the provider at all *)
+Theorem static_known_sound_closed : forall pv pv' e ctx,
+  asm_agree pv pv' -> const_known e = true -> eval code_ops pv e ctx = eval code_ops pv' e ctx.
+Proof. exact closed_known_indep. Qed.
+
+(* ... instruction matches (get_match_statically_known as of the repair of F72): the value of the match -- arguments,
+   their type checks, nested matches, rule body -- depends only on the statically known globals *)
+Theorem static_known_sound_match : forall defs G pv pv',
+  pv_agree G pv pv' -> asm_agree pv pv' ->
+  forall m, match_kinded defs m = true -> match_known true defs G m = true ->
+  resolve_match defs pv m = resolve_match defs pv' m.
+Proof. exact match_known_indep. Qed.
+
+(* ... in the resolver: two states in which the statically known constants hold their values (which the pre-pass
+   establishes) are indistinguishable for every known global, whatever the labels, guesses, position and pass mode *)
+Theorem static_known_sound_state : forall names ns K,
+  reserved_free names ->
+  (forall i, nth_error (k_sym K) i = Some true -> exists e, In (NConst i e) ns /\ const_known e = true) ->
+  forall st st' pos pos' cg cg', good ns st -> good ns st' ->
+  pv_agree (global_known true names (k_sym K)) (pvar names st pos cg) (pvar names st' pos' cg') /\
+  asm_agree (pvar names st pos cg) (pvar names st' pos' cg').
+Proof.
+  intros names ns K Hres HK st st' pos pos' cg cg' Hg Hg'.
+  exact (conj (good_agree names ns K HK st st' pos pos' cg cg' Hg Hg') (asm_agree_pvar names Hres st pos cg st' pos' cg')).
+Qed.
+
+(* the all-arguments condition and the `$`/`pc` test of the analysis are needed: without either one the two settings of
+   the switch assemble the same program to different bits (the programs of findings F72 and F73) *)
+Theorem C08_static_argcheck_needed :
+  exists indexed defs names ns b,
+    reserved_free names /\ canonical (length names) ns /\ data_static_ok ns /\ consts_asm_free ns /\ matches_kinded indexed defs ns /\
+    assembleS false true true indexed defs names ns b = Some (0, 24, [VInt (un 2); VInt (un 3)], 3%nat) /\
+    assembleS false true false indexed defs names ns b = Some (4369, 32, [VInt (un 2); VInt (un 4)], 3%nat).
+Proof. exact static_argcheck_needed. Qed.
+Theorem C08_static_pccheck_needed :
+  exists indexed defs names ns b,
+    reserved_free names /\ canonical (length names) ns /\ data_static_ok ns /\ consts_asm_free ns /\ matches_kinded indexed defs ns /\
+    assembleS true false true indexed defs names ns b = Some (0, 24, [VInt (un 5); VInt (un 3)], 3%nat) /\
+    assembleS true false false indexed defs names ns b = Some (2, 24, [VInt (un 5); VInt (un 3)], 3%nat).
+Proof. exact static_pccheck_needed. Qed.
+
+(* with the optimisation off the model with flags IS the resolver model of C02 / C09 (assemble), including the pass count *)
+Theorem C08_static_off_is_resolver : forall ac pc indexed defs names ns b,
+  reserved_free names -> canonical (length names) ns -> data_static_ok ns ->
+  assembleS ac pc false indexed defs names ns b = assemble indexed defs names ns b.
+Proof. exact assembleS_off. Qed.
+
+(* the switch theorem.  For every program and budget b exactly one of three things happens:
+   the two settings give the identical answer (bits, symbols, pass count, or both fail);
+   or the optimised run succeeds in ONE pass and the other run fails at budget 1 and gives the same bits and symbols in
+   exactly two passes at every budget >= 2 (the situation of finding F70);
+   or b >= 2, the optimised run fails (its confirming pass does), and so does the other run at budget 2. *)
+Theorem C08_static_switch : forall indexed defs names ns,
+  reserved_free names -> canonical (length names) ns -> data_static_ok ns -> consts_asm_free ns -> matches_kinded indexed defs ns ->
+  forall b,
+  assembleS true true true indexed defs names ns b = assembleS true true false indexed defs names ns b \/
+  (exists o s, (1 <= b)%nat /\ assembleS true true true indexed defs names ns b = Some (o, s, 1%nat) /\
+               (b = 1%nat -> assembleS true true false indexed defs names ns b = None) /\
+               ((2 <= b)%nat -> assembleS true true false indexed defs names ns b = Some (o, s, 2%nat))) \/
+  ((2 <= b)%nat /\ assembleS true true true indexed defs names ns b = None /\
+   (b = 2%nat -> assembleS true true false indexed defs names ns b = None)).
+Proof. exact static_switch_cases. Qed.
+
+(* hence: whenever both settings succeed they give identical bits and symbol values; the pass counts are equal or 1 and 2 *)
+Theorem C08_static_switch_same_result : forall indexed defs names ns,
+  reserved_free names -> canonical (length names) ns -> data_static_ok ns -> consts_asm_free ns -> matches_kinded indexed defs ns ->
+  forall b o s n o' s' n',
+  assembleS true true true indexed defs names ns b = Some (o, s, n) ->
+  assembleS true true false indexed defs names ns b = Some (o', s', n') ->
+  o = o' /\ s = s' /\ counts_ok n n'.
+Proof. exact static_switch_same_result. Qed.
+
+(* every success with the optimisation at a budget >= 2 is a success without it, same bits and symbols *)
+Theorem C08_static_switch_fwd : forall indexed defs names ns,
+  reserved_free names -> canonical (length names) ns -> data_static_ok ns -> consts_asm_free ns -> matches_kinded indexed defs ns ->
+  forall b o s n, (2 <= b)%nat ->
+  assembleS true true true indexed defs names ns b = Some (o, s, n) ->
+  exists n', assembleS true true false indexed defs names ns b = Some (o, s, n') /\ counts_ok n n'.
+Proof. exact static_switch_fwd. Qed.
+
+(* at budget 1 the optimised run may succeed alone, and then in one pass *)
+Theorem C08_static_switch_budget1 : forall indexed defs names ns,
+  reserved_free names -> canonical (length names) ns -> data_static_ok ns -> consts_asm_free ns -> matches_kinded indexed defs ns ->
+  forall o s n,
+  assembleS true true true indexed defs names ns 1 = Some (o, s, n) ->
+  assembleS true true false indexed defs names ns 1 = Some (o, s, n) \/
+  (n = 1%nat /\ assembleS true true false indexed defs names ns 1 = None).
+Proof. exact static_switch_budget1. Qed.
+
+(* every success without the optimisation is a success with it -- proved for budgets <= 2; for b >= 3 the missing case
+   is the one-pass situation in which the optimised run's confirming pass fails (third alternative of C08_static_switch) *)
+Theorem C08_static_switch_bwd_partial : forall indexed defs names ns,
+  reserved_free names -> canonical (length names) ns -> data_static_ok ns -> consts_asm_free ns -> matches_kinded indexed defs ns ->
+  forall b o s n', (b <= 2)%nat ->
+  assembleS true true false indexed defs names ns b = Some (o, s, n') ->
+  exists n, assembleS true true true indexed defs names ns b = Some (o, s, n) /\ counts_ok n n'.
+Proof. exact static_switch_bwd_partial. Qed.
+
+(* the literal statement of C08 for this switch ("for every budget") is false: `#d8 1` at budget 1 (finding F70) *)
+Theorem C08_static_switch_refuted :
+  exists indexed defs names ns b r,
+    reserved_free names /\ canonical (length names) ns /\ data_static_ok ns /\ consts_asm_free ns /\ matches_kinded indexed defs ns /\
+    assembleS true true true indexed defs names ns b = Some r /\ assembleS true true false indexed defs names ns b = None.
+Proof. exact static_switch_refuted. Qed.
+
+(* non-vacuity: a program with a label-dependent instruction, three passes, hypotheses discharged *)
+Example C08_static_switch_nonvacuous :
+  assembleS true true true true a_defs a_names a_ns 3 = Some (4369, 32, [VInt (un 2); VInt (un 4)], 3%nat) /\
+  assembleS true true false true a_defs a_names a_ns 3 = Some (4369, 32, [VInt (un 2); VInt (un 4)], 3%nat).
+Proof. exact switch_nonvacuous. Qed.
